@@ -43,6 +43,11 @@ Asg(path, m, src, key) == [path |-> path, m |-> m, src |-> src, key |-> key, c |
 \* a CONSTANT assignment riding on an option (veneer add_assignment): src = 0, c = the constant
 AsgC(path, v) == [path |-> path, m |-> "direct", src |-> 0, key |-> 0, c |-> v]
 ArgOf(a, as) == IF a.src = 0 THEN a.c ELSE as[a.src]
+\* the constant a veneer rule spells as text, read with the type of the field it is assigned to ("false", "0", "" are values too)
+ConstOfText(ft, s) ==
+  CASE ft.k = "bool"          -> JBool(s = "true")
+    [] ft.k \in {"int", "num"} -> IF s = "0" THEN JInt(0) ELSE IF s = "1" THEN JInt(1) ELSE JInt(2)
+    [] OTHER                  -> JStr(s)
 Opt(name, args, asgs)  == [name |-> name, args |-> args, asgs |-> asgs]
 
 HasField(t, n) == \E f \in Range(t.fields) : f.n = n
@@ -138,12 +143,15 @@ ApplyAt(S, D, key, t, obj, path, m, val, mk) ==
 St(obj, errs) == [obj |-> obj, errs |-> errs]
 
 \* L = "go" | "python"; (rk, rt) = root type key and struct type; as = argument values of the call
-RECURSIVE DoAsgs(_, _, _, _, _, _, _, _)
-DoAsgs(L, S, D, rk, rt, st, asgs, as) ==
+\* ats = the option's argument types: an option that appends ONE branch of a list's union takes that branch's type
+RECURSIVE DoAsgs(_, _, _, _, _, _, _, _, _)
+DoAsgs(L, S, D, rk, rt, st, asgs, as, ats) ==
   IF asgs = <<>> THEN [st |-> st, raised |-> FALSE, bad |-> FALSE]
   ELSE LET a   == Head(asgs)
            ty  == TypeAt(S, rk, rt, a.path)
-           vt  == IF a.m = "direct" THEN ty.t ELSE ElemType(S, ty.t)
+           et  == IF a.m = "direct" THEN ty.t ELSE ElemType(S, ty.t)
+           vt  == IF a.src > 0 /\ Unwrap(S, et).k = "dunion" /\ ats[a.src].k = "ref" /\ ats[a.src].name \in Range(Unwrap(S, et).refs)
+                  THEN ats[a.src] ELSE et
            b   == Built(S, D, ty.key, vt, ArgOf(a, as))
            \* python reports by the option call: what can violate is the argument itself (a nested python builder has no
            \* Build() that fails: members it was never given are not arguments); go reports the nested Build() / the final Validate()
@@ -151,12 +159,12 @@ DoAsgs(L, S, D, rk, rt, st, asgs, as) ==
            mk  == IF a.key = 0 THEN NoJ ELSE as[a.key]
        IN IF bad /\ L = "python" THEN [st |-> st, raised |-> TRUE, bad |-> TRUE]
           ELSE IF bad /\ IsBuilderArg(S, vt) THEN [st |-> St(st.obj, st.errs \cup {a.path}), raised |-> FALSE, bad |-> TRUE]
-          ELSE LET rest == DoAsgs(L, S, D, rk, rt, St(ApplyAt(S, D, rk, rt, st.obj, a.path, a.m, b, mk), st.errs), Tail(asgs), as)
+          ELSE LET rest == DoAsgs(L, S, D, rk, rt, St(ApplyAt(S, D, rk, rt, st.obj, a.path, a.m, b, mk), st.errs), Tail(asgs), as, ats)
                IN [st |-> rest.st, raised |-> rest.raised, bad |-> bad \/ rest.bad]
 
 \* opts[0] does not exist: option 0 is the constructor (its assignments are in ctor)
 Call(L, S, D, rk, rt, ctor, opts, st, c) ==
-  DoAsgs(L, S, D, rk, rt, st, IF c.o = 0 THEN ctor.asgs ELSE opts[c.o].asgs, c.as)
+  DoAsgs(L, S, D, rk, rt, st, IF c.o = 0 THEN ctor.asgs ELSE opts[c.o].asgs, c.as, IF c.o = 0 THEN ctor.args ELSE opts[c.o].args)
 
 InitSt(D, rk) == St(D[rk], {})
 
